@@ -25,6 +25,7 @@ DROPPED = [
     "docstrings", "type annotations", "logger.* calls (no-ops)", "for loops whose body consists only of logger calls (the iterable is still evaluated)",
     "decorators other than property/dataclass/staticmethod (@parallelize => A4)",
     "float literals -> exact decimals (A1)", "exception message texts (class kept)",
+    "augmented assignment to a subscript `a[i] op= v` rewritten as `a[i] = a[i] op v` (same final contents for arrays and lists)",
     "module-level statements other than the definitions and pure constant assignments a function refers to",
 ]
 
@@ -298,6 +299,25 @@ class Xform(ast.NodeTransformer):
             elif r is not None:
                 out.append(r)
         return out or [ast.Pass()]
+
+    def visit_AugAssign(self, n):
+        # `a[idx] op= v` -> `a[idx] = a[idx] op v` when `a` and `idx` are side-effect-free expressions: the same final
+        # contents for NumPy arrays (NumPy evaluates the right-hand side before storing; the view that `a[idx]` hands to
+        # the in-place operator is written back into `a[idx]`) and for lists; it spares the model the alias between the
+        # view and the array
+        self.generic_visit(n)
+        t = n.target
+        PURE = (ast.Name, ast.Constant, ast.Slice, ast.Tuple, ast.Attribute, ast.BinOp, ast.UnaryOp, ast.Subscript, ast.Compare,
+                ast.Load, ast.Store, ast.operator, ast.unaryop, ast.cmpop, ast.expr_context)
+        if isinstance(t, ast.Subscript) and all(isinstance(x, PURE) for x in ast.walk(t)):
+            import copy
+            load = copy.deepcopy(t)
+            load.ctx = ast.Load()
+            new = ast.Assign([t], ast.BinOp(load, n.op, n.value))
+            ast.copy_location(new, n)
+            ast.fix_missing_locations(new)
+            return new
+        return n
 
     def visit_AnnAssign(self, n):
         if self.in_class:
